@@ -241,6 +241,7 @@ type MemListener struct {
 	closed chan struct{}
 	once   sync.Once
 	Closes int
+	aliases []string
 }
 
 func tkey(a *net.TCPAddr) string { return "tcp/" + key(&net.UDPAddr{IP: a.IP, Port: a.Port}) }
@@ -286,6 +287,11 @@ func (l *MemListener) Close() error {
 		if l.n.listeners[tkey(l.addr)] == l {
 			delete(l.n.listeners, tkey(l.addr))
 		}
+		for _, k := range l.aliases {
+			if l.n.listeners[k] == l {
+				delete(l.n.listeners, k)
+			}
+		}
 		l.n.mu.Unlock()
 	})
 	if already {
@@ -293,6 +299,15 @@ func (l *MemListener) Close() error {
 	}
 
 	return nil
+}
+
+// AliasTCP makes l answer at addr as well (a listener bound to the wildcard address is reached at every local IP; the
+// accepted connection's local address is the one that was dialled).
+func (n *MemNet) AliasTCP(l *MemListener, addr *net.TCPAddr) {
+	n.mu.Lock()
+	defer n.mu.Unlock()
+	n.listeners[tkey(addr)] = l
+	l.aliases = append(l.aliases, tkey(addr))
 }
 
 // Addr implements net.Listener.
